@@ -356,10 +356,12 @@ impl Adapter for StacksAd {
             v.push(json!({"e":"settle"}));
             if fail {
                 // retrying layers wait for their backoff / hedge delay and call again
-                for _ in 0..3 {
+                // (now and then the first retry fails as well: the second retry has to observe readiness again)
+                let twice = rng.pct(40);
+                for k in 0..3 {
                     v.push(json!({"e":"advance","d":6}));
                     v.push(json!({"e":"settle"}));
-                    v.push(json!({"e":"completeall","out":"ok"}));
+                    v.push(json!({"e":"completeall","out": if twice && k == 0 { "e1" } else { "ok" }}));
                     v.push(json!({"e":"settle"}));
                 }
             }
